@@ -24,9 +24,17 @@ def main():
     ctx = common.Ctx(prop, a.tier, a.seed)
     try:
         mod.run(ctx)
-    except Exception:
-        # a crash of the machinery is a broken check (exit 2), never a pass and never a VIOLATION
+    except Exception as ex:
         traceback.print_exc()
+        frames = traceback.extract_tb(sys.exc_info()[2])
+        in_impl = any(os.path.abspath(f.filename).startswith(os.path.abspath(common.REPO) + os.sep) for f in frames)
+        if ctx.violations or in_impl:
+            # the implementation raised where the correspondence expects an answer, or the run stopped after concrete
+            # violations had been recorded: the tie no longer checks; report what was found (never on the unchanged tree)
+            where = next((f for f in reversed(frames) if os.path.abspath(f.filename).startswith(os.path.abspath(common.REPO) + os.sep)), frames[-1])
+            ctx.broken.append("correspondence run stopped: %s: %s (at %s:%s)" % (type(ex).__name__, str(ex)[:200], where.filename, where.lineno))
+            return ctx.finish(**getattr(mod, "FINISH", {}))
+        # a crash of the machinery itself is a broken check (exit 2), never a pass and never a VIOLATION
         print("CHECK-ERROR property=%s (machinery failure, not a verdict)" % prop)
         import shutil
         shutil.rmtree(ctx.workdir, ignore_errors=True)
